@@ -74,14 +74,15 @@ def match_known(v, known):
     'detail_has' substring), so a different violation of the same property
     is still reported."""
     for k in known:
-        if k.get('check') != v.get('check'):
+        kc = k.get('check')
+        if v.get('check') not in (kc if isinstance(kc, list) else [kc]):
             continue
         if k.get('entry') is not None and k.get('entry') != v.get('entry'):
             continue
         if k.get('entry_re') is not None and not re.match(k['entry_re'] + '$', str(v.get('entry'))):
             continue
-        need = k.get('detail_has')
-        if need and need not in json.dumps(v.get('detail'), sort_keys=True):
+        dj = json.dumps(v.get('detail'), sort_keys=True)
+        if any(k.get(n) and k[n] not in dj for n in ('detail_has', 'detail_has2')):
             continue
         return k
     return None
